@@ -2,7 +2,7 @@
 from fractions import Fraction as Fr
 from .. import gtlib
 from ..gtlib import cq, cvec, cmat, cb3, cbool, cseq, cints, cnats, jarr, Obs
-from . import common as C, lin, c03
+from . import common as C, lin, c03, c16
 
 PROP = "C12"
 PROPS_FILE = "props/C12.v"
@@ -95,6 +95,19 @@ def gen_descs(g, tier):
         for _ in range(reps):
             R = g.randint(2, 4 if q else 6)
             out.append(C.J(gen_case(g, op, R, g.randint(1, 3))))
+    # approximate conditionals with a batched p(x) and truncated measures: slicing the result = slicing the operands
+    # (metamorphic oracle on the implementation only; the models of these objects are per component)
+    for kind in ("lrbf", "lsem", "exp", "coshm1", "heaviside", "relu"):
+        for _ in range(1 if q else 8):
+            R = g.randint(2, 3)
+            f = c16.gen_case(g, kind, g.randint(1, 2), g.randint(1, 2), g.randint(1, 2) if kind in ("lrbf", "lsem") else 1, R=R)
+            f["p"] = lin.gen_pdfv(g, R, f["Dx"], ctor="Sigma"); f["R"] = R
+            out.append(C.J(dict(op="approx", idx=gen_idx(g, R), xs=g.mat(2, f["Dy"]), f=f, ys=g.mat(R, f["Dy"]))))
+    for _ in range(3 if q else 30):
+        R = g.randint(2, 4)
+        lo = [g.q() for _ in range(R)]
+        out.append(C.J(dict(op="trunc", idx=gen_idx(g, R), xs=g.mat(3, 1), u=C.gen_measure(g, R, 1), lo=lo,
+                            hi=[l + g.qpos() for l in lo], mode=g.choice(["both", "lower", "upper"]))))
     # update(idx, d): systematic address patterns -- gaps, descending, mixed negative, a full permutation, one component
     for (R, pos) in [(3, [0, 2]), (4, [3, 1]), (4, [-1, 0]), (3, [2, 0, 1]), (5, [4, 0, 2]), (3, [1]), (4, [1, 2]), (4, [-2, -4])]:
         d = gen_case(g, "update", R, g.randint(1, 2))
@@ -139,6 +152,8 @@ def coq_term(d):
     op, idx = d["op"], d["idx"]
     I = cints(idx)
     xs = cmat(d["xs"])
+    if op in ("approx", "trunc"):
+        return "dnat %d" % len(idx)
     if op in ("mul_u", "mul_f", "had"):
         u = coq_u(d["u"], d["cached"]); f = C.coq_factor(d["f"]) if d["f"]["kind"] != "pdf" else "(factor_of_measure %s)" % lin.coq_pdfv(d["f"])
         Ru, Rf = d["u"]["R"], d["f"]["R"]
@@ -293,6 +308,38 @@ def run_impl(d):
     ji = jnp.array(idx)
     ob = Obs(); fails = []
     xs = d["xs"]
+    if op == "approx":
+        ob.nat("n", len(idx))
+        f = d["f"]; kind = f["kind"]
+        c, p = c16.build(f)
+        ps = lin.impl_pdfv(f["p"]).slice(ji)
+        het = kind not in ("lrbf", "lsem")
+        # (moment matching of the heteroscedastic classes is declared for a single-component p(x) only: integrate_Sigma_x
+        #  returns "1 Dy Dy"; with a batch the step / ReLU links silently use component 0 -- outside every property, not tested)
+        pairs = []
+        if not het:
+            pairs.append(("affine_marginal_transformation", c.affine_marginal_transformation(p).slice(ji), c.affine_marginal_transformation(ps)))
+            pairs.append(("affine_joint_transformation", c.affine_joint_transformation(p).slice(ji), c.affine_joint_transformation(ps)))
+        for nm, a, b in pairs:
+            same(fails, "%s[%s]" % (nm, kind), a, b)
+        if het:
+            ys = jarr(d["ys"]); ysl = jarr([d["ys"][i % f["R"]] for i in idx])
+            a = np.take(np.asarray(c.integrate_log_conditional_y(p, y=ys)).reshape(-1), np.array(idx)); b = np.asarray(c.integrate_log_conditional_y(ps, y=ysl)).reshape(-1)
+            same(fails, "integrate_log_conditional_y[%s]" % kind, a, b, kind="arr")
+        return ob, fails
+    if op == "trunc":
+        from gaussian_toolbox.experimental import truncated_measure as tmod
+        ob.nat("n", len(idx))
+        R = d["u"]["R"]; ii = [i % R for i in idx]
+        lo = None if d["mode"] == "upper" else jarr([[v] for v in d["lo"]]); hi = None if d["mode"] == "lower" else jarr([[v] for v in d["hi"]])
+        lo2 = None if lo is None else jarr([[d["lo"][i]] for i in ii]); hi2 = None if hi is None else jarr([[d["hi"][i]] for i in ii])
+        u = C.impl_measure(d["u"])
+        tm = tmod.TruncatedGaussianMeasure(measure=u, lower_limit=lo, upper_limit=hi)
+        tm2 = tmod.TruncatedGaussianMeasure(measure=C.impl_measure(d["u"]).slice(ji), lower_limit=lo2, upper_limit=hi2)
+        for key, kw in (("1", {}), ("x", {}), ("x**2", {}), ("x**k", dict(k=3))):
+            a = np.take(np.asarray(tm.integrate(key, **kw)), np.array(idx), axis=0); b = np.asarray(tm2.integrate(key, **kw))
+            same(fails, "truncated integrate(%r)" % key, a, b, kind="arr")
+        return ob, fails
     if op in ("mul_u", "mul_f", "had"):
         u = impl_u(d["u"], d["cached"]); f = lin.impl_pdfv(d["f"]) if d["f"]["kind"] == "pdf" else C.impl_factor(d["f"])
         Ru, Rf = d["u"]["R"], d["f"]["R"]
